@@ -1,7 +1,7 @@
 (* C18 -- Actions are well-formed value objects
    Property theorems only: each proof is one application of a lemma proved in Proofs/, followed by Print Assumptions. *)
 From Coq Require Import ZArith List Bool.
-From CS Require Repr RevConv RevBridge4 RevolveRun.
+From CS Require Repr RevConv RevBridge4 RevolveRun DiskRun OnlineWF.
 From CS Require Import Actions NAdvance Multistage Exec Sched RunFacts Projections BasicInv MultistageRun AllocTotal TLBridge MixBridge.
 Import ListNotations.
 Open Scope Z_scope.
@@ -67,6 +67,46 @@ Proof.
   exists o0, m, ls. auto using mon_ok_no_err.
 Qed.
 Print Assumptions C18_mixed.
+
+(* DiskRevolve and PeriodicDiskRevolve: every N, every RAM count >= 1, every cost vector; budgets RAM = snapshots_in_ram, DISK unbounded.
+   The monitor's only possible verdict other than "no error" is E_leftover at the final EndReverse (class C04: the open finding
+   D8, see C04_disk_revolve_refuted), so no error of THIS property's class is ever reported, and nothing raises *)
+Theorem C18_disk_revolve : forall (N ram disk uf ub wd rd : Z) (k : nat), 1 <= N -> 1 <= ram ->
+  exists o0 m ls, run_case (PRev RevConv.KDiskRevolve N ram disk uf ub wd rd) (DiskRun.disk_xparams N ram) (repeat Next k) = Ok (o0, m, ls) /\ no_err err_C18 m /\ no_raise ls.
+Proof.
+  intros N ram disk uf ub wd rd k H1 H2. destruct (DiskRun.disk_revolve_run N ram disk uf ub wd rd k H1 H2) as (o0 & m & ls & E & Hl & Hm).
+  exists o0, m, ls. split; [exact E|]. split; [apply (DiskRun.leftover_no_err _ m Hm); intros []|exact Hl].
+Qed.
+Print Assumptions C18_disk_revolve.
+Theorem C18_periodic_disk_revolve : forall (N ram disk uf ub wd rd : Z) (k : nat), 1 <= N -> 1 <= ram ->
+  exists o0 m ls, run_case (PRev RevConv.KPeriodic N ram disk uf ub wd rd) (DiskRun.disk_xparams N ram) (repeat Next k) = Ok (o0, m, ls) /\ no_err err_C18 m /\ no_raise ls.
+Proof.
+  intros N ram disk uf ub wd rd k H1 H2. destruct (DiskRun.periodic_run N ram disk uf ub wd rd k H1 H2) as (o0 & m & ls & E & Hl & Hm).
+  exists o0, m, ls. split; [exact E|]. split; [apply (DiskRun.leftover_no_err _ m Hm); intros []|exact Hl].
+Qed.
+Print Assumptions C18_periodic_disk_revolve.
+
+(* NoneCheckpointSchedule, SingleMemoryStorageSchedule, SingleDiskStorageSchedule under EVERY history (requests, valid or rejected finalize calls, Run loops, in any order and number; any executor parameters): every yielded action is well formed (wf_action: the E_malformed requirements of the executor) *)
+Module M_C18_basic_wf_every_history.
+Import OnlineWF.
+Theorem C18_basic_wf_every_history :
+  forall (pr : Sched.params) (p : Exec.xparams) (ops : list Sched.op) (o0 : Sched.obs) 
+           (m : Sched.mon) (ls : list Sched.line),
+         pr = Sched.PNone \/ pr = Sched.PMem \/ (exists mv : bool, pr = Sched.PDisk mv) ->
+         Sched.run_case pr p ops = Actions.Ok (o0, m, ls) -> Forall wf_line ls.
+Proof. exact (@OnlineWF.basic_wf_every_history). Qed.
+Print Assumptions C18_basic_wf_every_history.
+End M_C18_basic_wf_every_history.
+
+(* wf_action is exactly what the executor needs not to report E_malformed *)
+Module M_C18_wf_not_malformed.
+Import OnlineWF.
+Theorem C18_wf_not_malformed :
+  forall (p : Exec.xparams) (kn ex : bool) (x : Exec.xstate) (a : Actions.action),
+         wf_action a = true -> Exec.check p kn ex x a <> Some Exec.E_malformed.
+Proof. exact (@OnlineWF.wf_not_malformed). Qed.
+Print Assumptions C18_wf_not_malformed.
+End M_C18_wf_not_malformed.
 
 (* decimal printing of integers parses back *)
 Module M_C18_z_roundtrip.
